@@ -49,4 +49,10 @@ def run(rep, fb, tier):
             finally:
                 rep.no_floor_table = False
             rep.rules[-1].name += "@instantiations"
+    from ..rules import lints as _lx
+    _lx.rule_null_branch_deref(rep, fb)
+    _lx.rule_strict_comparator(rep, fb)
+    from ..rules import lints as _ly
+    _ly.rule_growth_progress(rep, fb)
+    _ly.rule_shift_literal(rep, fb)
     rep.units = fb.units
